@@ -38,6 +38,7 @@ def run(rp):
         N.ARG_NAMES[k] = list(cc.args.keys())
     N.HELPERS.clear()
     N.HELPERS.update(native.get("helpers", {}))
+    N.HELPERS.update(getattr(c, "native_helpers", None) or {})  # per-contract overrides (e.g. an uninterpreted relation read from the model instead of its real definition)
     for g, v in c.ghost.items():
         N.GHOST[g] = v if not hasattr(v, "make") else None
     patched = []
@@ -89,7 +90,7 @@ def run(rp):
         args = {k: N.decode(v, ctx) for k, v in rp["inputs"]["args"].items() if not k.startswith("outer_")}
     except N.Undecodable as e:
         return {"confirmed": False, "why": f"undecodable input: {e}"}
-    env = dict(native.get("helpers", {}))
+    env = dict(N.HELPERS)
     for alias, fq in reg.aliases.items():
         if alias not in env:
             path = fq.partition(":")[2]
